@@ -128,6 +128,19 @@ class Generator:
             self.syntactic.append(dict(oid=oid, tags=tags, addr=(offenders[0] if offenders else allowed[0]), ok=not offenders,
                                        why=('/%s/ is also called from %s' % (call_re, ', '.join(offenders))) if offenders else '',
                                        src_file=here.src_file if here else '', src_line=here.src_line if here else 0))
+        # type-level structural obligation (@onlyholders): only the listed structs may have a field whose type matches the regex
+        for caddr, c in self.contracts.items():
+            for (ty_re, allowed_structs, oid, tags) in getattr(c, 'onlyholders', []):
+                offenders = []
+                for nm, (stxt, srel, sline) in getattr(self, 'struct_texts', {}).items():
+                    if nm in allowed_structs:
+                        continue
+                    m0 = re.search(r'\{(.*)\}', stxt, re.S) or re.search(r'\((.*)\)', stxt, re.S)
+                    if m0 and re.search(ty_re, m0.group(1)):
+                        offenders.append((nm, srel, sline))
+                self.syntactic.append(dict(oid=oid, tags=tags, addr=(offenders[0][1] + '::' + offenders[0][0]) if offenders else caddr, ok=not offenders,
+                                           why=('struct %s holds a field of type /%s/ (only %s may)' % (', '.join(o[0] for o in offenders), ty_re, ', '.join(allowed_structs))) if offenders else '',
+                                           src_file=offenders[0][1] if offenders else '', src_line=offenders[0][2] if offenders else 0))
         unused = set(self.contracts) - self.used_contracts
         # A contract whose item is gone is moot IF it only says what that item did (requires/ensures/proof hints): whoever took its
         # work over is judged by its own contract (or, having none, makes its callers' failures 'undecided').  A missing item that carries
@@ -273,6 +286,10 @@ class Generator:
             return
         txt = src[it.start:it.end]
         body_rel = None
+        if it.kind == 'struct':
+            if not hasattr(self, 'struct_texts'):
+                self.struct_texts = {}
+            self.struct_texts[it.name] = (re.sub(r'//[^\n]*', '', txt), rel, line_of(it.head_start))
         if it.has_body:
             # R1 on fields (struct only), R2 on in-body attributes
             o = it.body_open - it.start
